@@ -210,6 +210,7 @@ impl Builder {
         if c.point_faults.contains(&PointFault::CrlGarbage) { return garbage(&format!("crl{}", w.crl_uri(ca)), 150) }
         let mut revoked: Vec<u64> = c.objects.iter().filter(|o| o.fault == Some(Fault::Revoked)).map(|o| o.serial).collect();
         if c.point_faults.contains(&PointFault::MftEeRevoked) { revoked.push(c.mft_serial); }
+        revoked.extend(c.also_revoked.iter().cloned().filter(|r| !c.objects.iter().any(|o| o.serial == *r)));
         revoked.sort();
         let key = c.key;
         let (this, next, number) = (c.crl_this, c.crl_next, c.mft_number + number_bump);
